@@ -30,6 +30,8 @@ ASSUMPTIONS = [
 
 FORMS = ["gopher", "gplus", "gdollar", "http", "wap", "gemini", "spartan"]
 DIRS = ["/", "/a", "/b", "/a/c"]
+PHYS = {"/zalias": "/a"}  # a second name (symlink in the root) of a directory: both names share one cache file
+LIST_DIRS = DIRS + ["/zalias"]
 L = 1000
 _MASKS = [(re.compile(rb"Last-Modified: [^\r\n]*\r\n"), b"Last-Modified: X\r\n"),
           (re.compile(rb" Mod-Date: [^\r\n]*\r\n"), b" Mod-Date: X\r\n")]
@@ -56,7 +58,7 @@ class CacheWorld:
     INITIAL = [
         ["readme.txt", "f", "readme\n"], ["zeta.c", "f", "int z;\n"], ["page.html", "f", "<html><title>Page Title</title></html>\n"],
         ["a/one.txt", "f", "1\n"], ["a/two.gif", "f", "GIF89a"], ["a/c/deep.txt", "f", "deep\n"], ["a/c/x.pdf", "f", "%PDF"],
-        ["b/only.txt", "f", "only\n"], ["a/c/.abstract", "f", "about c\n"], ["a/empty.txt", "f", ""], ["nil.dat", "f", ""],
+        ["b/only.txt", "f", "only\n"], ["a/c/.abstract", "f", "about c\n"], ["a/empty.txt", "f", ""], ["nil.dat", "f", ""], ["zalias", "l", "a"],
     ]
 
     def __init__(self, lifetime, ctx=None):
@@ -82,7 +84,7 @@ class CacheWorld:
         hdir.time = _Clock()
         self.nsnap = 0
         self.steps = []
-        self.flags = {"hit_after_mutation": False, "cross_protocol_hit": False, "expiry_after_hit": False}
+        self.flags = {"hit_after_mutation": False, "cross_protocol_hit": False, "expiry_after_hit": False, "alias_takeover": False}
 
     def close(self):
         self._hdir.time = self._realtime
@@ -107,7 +109,7 @@ class CacheWorld:
                       if not n.startswith(".") and os.path.isfile(os.path.join(self._dirpath(dsel), n)))
 
     def _mut(self, dsel):
-        c = self.cache.get(dsel)
+        c = self.cache.get(PHYS.get(dsel, dsel))
         if c:
             c["mutated"] = True
         parent = os.path.dirname(dsel) or "/"
@@ -205,8 +207,12 @@ class CacheWorld:
         return r
 
     def _list(self, dsel, form):
-        c = self.cache.get(dsel)
-        hit = self.lifetime > 0 and c is not None and c["age"] < self.lifetime
+        key = PHYS.get(dsel, dsel)
+        c = self.cache.get(key)
+        # one cache file per directory: an entry written under the directory's other name is not used (and is replaced)
+        hit = self.lifetime > 0 and c is not None and c["age"] < self.lifetime and c.get("sel", key) == dsel
+        if c is not None and c.get("sel", key) != dsel:
+            self.flags["alias_takeover"] = True
         r = drive.serve(self.cfg, clients.encode(form, dsel.encode()), tls=clients.FORMS[form][0])
         fails = []
         if r.escaped is not None or r.exception_classes():
@@ -231,8 +237,8 @@ class CacheWorld:
             exp = self._reference(snap, dsel, form)
             if c is not None:
                 shutil.rmtree(c["snap"], ignore_errors=True)
-            self.cache[dsel] = {"age": 0, "snap": snap, "writer": form, "mutated": False, "hits": 0,
-                                "age_at_last_hit": None}
+            self.cache[key] = {"age": 0, "snap": snap, "writer": form, "mutated": False, "hits": 0,
+                               "age_at_last_hit": None, "sel": dsel}
             kind = "miss"
         if hit:
             c["age_at_last_hit"] = c["age"]
@@ -346,7 +352,21 @@ class CacheMachine(RuleBasedStateMachine):
         self._do({"op": "advance", "dt": dt, "how": how})
         self._do({"op": "list", "dir": d, "form": f2})
 
-    @rule(d=st.sampled_from(DIRS), form=st.sampled_from(FORMS))
+    @rule(f1=st.sampled_from(FORMS), f2=st.sampled_from(FORMS), f3=st.sampled_from(FORMS), name=name_st,
+          dt1=st.sampled_from([300, 600, 700]), dt2=st.sampled_from([400, 600, 900]), first=st.sampled_from(["/a", "/zalias"]),
+          how=st.sampled_from(["utime", "shift"]))
+    def alias_cycle(self, f1, f2, f3, name, dt1, dt2, first, how):
+        """one name listed, the directory changed, the other name listed within the lifetime, the first name listed again when
+        its own listing is older than the lifetime although the cache file is not"""
+        other = "/zalias" if first == "/a" else "/a"
+        self._do({"op": "list", "dir": first, "form": f1})
+        self._do({"op": "create", "dir": "/a", "name": name})
+        self._do({"op": "advance", "dt": dt1, "how": how})
+        self._do({"op": "list", "dir": other, "form": f2})
+        self._do({"op": "advance", "dt": dt2, "how": how})
+        self._do({"op": "list", "dir": first, "form": f3})
+
+    @rule(d=st.sampled_from(LIST_DIRS), form=st.sampled_from(FORMS))
     def list_a(self, d, form):
         self._do({"op": "list", "dir": d, "form": form})
 
